@@ -73,6 +73,19 @@ CHECKS['C02'] = {
 	'ref': 'DESIGN.md §5 C02, §4 Prec, §10',
 }
 
+CHECKS['C01'] = {
+	'text': 'Partial (operator core): Lean theorems over an executable model of Py2Cpp operator rendering (operator.py node shapes, proc_binary_operation_expression, unary/ternary/group, the precedence guards added by fix 0598c93/5807b18) that interprets the translated operator templates, i18n table, grammar ladder and CppOperatorPrecedences: for every grammar-producible operator node without a comparison chain the emitted tokens are not fused by C++ lexing, parse under the C++ precedence table and regroup exactly like Python (group; by construction through Tranp.Prec); the emitter\'s table agrees with the C++ table; counterexample for comparison chains; operator semantics agree on the explicit 32-bit / non-negative-% / short-circuit subset (sem, agree); template/ladder totality by decide. Tied to the code by three streams (emit: exact emitted text of random operator trees; cpptable: g++\'s own grouping vs the trusted table; sem: denotations vs instrumented CPython and g++ -fsanitize=undefined). The rest of the property is a failing-input search: generated typed programs → real transpile → g++ -std=c++20 → run → compare with CPython.',
+	'note': TB + ' Statements, classes, containers and strings are search-only; floats are outside sem; cppTable/denotePy/denoteCpp are transcriptions validated against g++ and CPython on every run; g++ 12 with std::format shimmed in the driver prelude. Six known findings (chain-compare, flat:len-arg, flat:range-arg, flat:dict-get, unsigned:len, cast:nested).',
+	'technique': 'Lean 4 proof (precedence round trip via Tranp.Prec, decide over translated tables) + differential correspondence + compile-and-run search against CPython',
+	'ref': 'DESIGN.md §5 C01, §10',
+}
+CHECKS['C07'] = {
+	'text': 'Partial (exception-normalisation core): Lean theorems over an executable model of tranp\'s exception flow whose class hierarchy and except-clause tables are generated from errors.py, CPython and the AST of procedure.py / parser.py / modules.py / bin/transpile.py / error_render.py: Procedure.exec turns whatever any handler raises (any class, universally quantified) into ok / Errors.Error / pass-through of non-Exceptions; both parser branches map every Exception to Errors.Syntax; Modules.load normalises every Exception of loading and preprocessing (load_normalised); the Interactive loop survives every history of {ok} ∪ Errors.Error outcomes; message and quotation builders are total exactly under stated guards. Tied to the code by six correspondence streams. The bulk of the property — no lookup/assertion/type exception escapes load+transpile, rendering never fails, termination — is a fuzz search on the real pipeline in memory and on disk with stable (class, innermost tranp frame) keys.',
+	'note': TB + ' Search-only for transpile-stage code outside Procedure and for __build_stacktrace; proc assumes node properties do not raise (counterexample proved otherwise); 10 s CPU cap per input.',
+	'technique': 'Lean 4 proof (generic try/except interpreter over generated except tables) + differential correspondence + fuzz search',
+	'ref': 'DESIGN.md §5 C07, §10',
+}
+
 NOT_YET = {
 }
 
